@@ -60,6 +60,8 @@ def attribute(scenario, config, kind, primary, weak):
             props = ["C16"]
         else:  # crashes, heap errors, hangs, races: the history is broken for every property this scenario serves
             props = [lin, "C07"]
+    elif fam == "slots" and kind == "bookkeeping-growth":
+        props = ["C17", "C18"]  # footprint census across the thread generations of all executions of one process
     elif fam in SIMPLE_FAMILIES:
         props = ["C16"] if kind in ("solo-bound", "solo-blocked") else list(SIMPLE_FAMILIES[fam])
     elif fam == "vyukov":
@@ -333,6 +335,39 @@ PLANS["C17"] = plan_reclaim("C17", r"^gens_", 400, 4000,
                             "number of threads created; for hazard_pointer / hazard_eras the number of active hazard pointers / eras that the allocation strategy "
                             "publishes (it scales the retire threshold and every scan) is sampled at the same quiescent points and must not grow either",
                             {"generation_rounds": 1000, "destroyed_by_other_after_retirer_exit": 100, "declared_slot_samples": 100})
+
+
+def _with_slot_census(plan):
+    """C17 also quantifies over threads that grew their slot arrays (dynamic hazard_pointer / hazard_eras strategies): the wide_* guard
+    sequences of the slots scenario (fill phase: up to 3K+2 guards, eras bumped in between) run as many executions of one process, i.e.
+    thousands of thread generations that adopt each other's grown control blocks; the live heap after the last thread of an execution
+    has exited must stay bounded (reference = executions 24..47 of the process)."""
+    base_targets, base_jobs, base_gates = plan["targets"], plan["jobs"], plan["gates"]
+
+    def targets(tier):
+        return base_targets(tier) + [("slots", "xrt-prod")]
+
+    def jobs(tier, seed, list_configs):
+        jobs = base_jobs(tier, seed, list_configs)
+        for c in list_configs("slots", "xrt-prod"):
+            if c.startswith("wide_") or (c.startswith("run_") and "_dyn_" in c):
+                jobs.append(dict(target="slots", variant="xrt-prod", timeout=3600,
+                                 args=["--cfg", c, "--mode", "sc", "--seed", str(seed * 100 + 17), "--execs", "1500" if tier == "quick" else "20000"]))
+        return jobs
+
+    def gates(tier, agg, counters, per_config, distinct):
+        msgs = base_gates(tier, agg, counters, per_config, distinct)
+        if counters.get("bookkeeping_census_samples", 0) < 5000:
+            msgs.append("counter bookkeeping_census_samples = %d < 5000" % counters.get("bookkeeping_census_samples", 0))
+        return msgs
+
+    return dict(plan, targets=targets, jobs=jobs, gates=gates,
+                rule=plan["rule"] + "; PLUS slots wide_* / run_*_dyn_*: 1500 (thorough 20000) consecutive executions per configuration in one process = "
+                "two thread generations each whose holders grow the dynamic slot array (up to 3K+2 guards) and exit; the live heap after every execution "
+                "(all threads exited) is compared with the maximum over executions 24..47 of the process (more than 4x + 64 KiB = bookkeeping-growth)")
+
+
+PLANS["C17"] = _with_slot_census(PLANS["C17"])
 
 def plan_c03():
     """Weak-memory slice of every scenario (production orders and the TSan build variant) + race detector."""
